@@ -587,8 +587,24 @@ func (ex *Exec) locTargets(l Loc, t types.Type, path string) []modTarget {
 
 // havocTarget forgets the contents of the locations named by a modifies expression (evaluated in env's state).
 func (ex *Exec) havocTarget(e *Expr, env *Env, hint string) {
+	ex.havocTargets(ex.modTargets(e, env), hint, nil)
+}
+
+// havocTargets forgets the listed locations; with only != nil, heap targets whose region is not in the set are skipped.
+func (ex *Exec) havocTargets(targets []modTarget, hint string, only map[string]bool) {
 	ts := ex.ts
-	for _, t := range ex.modTargets(e, env) {
+	for _, t := range targets {
+		if only != nil && t.region != "" && !only[t.region] {
+			continue
+		}
+		if only != nil && t.all {
+			for n := range only {
+				if s, ok := ex.regionSorts[n]; ok {
+					ex.st.heap[n] = ts.Fresh("H|"+n, s)
+				}
+			}
+			continue
+		}
 		switch {
 		case t.all:
 			ex.havocAllHeap(hint)
